@@ -229,6 +229,85 @@ def gen_size_session(rng):
     return sess
 
 
+def gen_reclimit_session(rng):
+    """CDF-1/2: the record count field is a 32-bit NON_NEG (at most 2^31-1 records).  One narrow record
+    variable; single records just below the limit are written and read back (sparse file, a few GiB of
+    offsets), then a put that would make the count 2^31: either it succeeds and the count survives
+    close/open, or it is rejected and has no effect - a failing put that raises the count, or a count
+    that is lost at reopen, violates the property."""
+    sess = Session(rng, np_=1)
+    f = sess.f
+    fmt = rng.choice([1, 2])
+    xt = rng.choice([1, 2, 3])
+    K = {1: 't1', 2: 't2', 3: 't3'}[xt]
+    sess.emit('* create %d %d 1' % (f, fmt), kind='create')
+    sess.emit('* def_dim %d %s -1' % (f, hx('t')))
+    sess.emit('* def_var %d %s %d 1 0' % (f, hx('r'), xt), kind='rl_def')
+    sess.emit('* enddef %d' % f, kind='rl_enddef')
+    class S_: pass
+    s = S_(); s.vars = []; s.fmt = fmt; s.dims = []
+    sess.s = s
+    LIM = 2**31 - 1
+    below = LIM - 1 - rng.below(3)                  # record index: count becomes <= 2^31-1
+    sess.emit('* put %d c 0 var1 %s c 1 %d pat %d' % (f, K, below, 3 + rng.below(50)), kind='rl_put', rec=below, legal=True)
+    sess.emit('* inq_numrecs %d' % f, kind='rl_nr', want=below + 1)
+    sess.emit('* get %d c 0 var1 %s c 1 %d' % (f, K, below), kind='rl_get', rec=below)
+    over = LIM + rng.below(2)                       # record index: count would become 2^31 or 2^31+1
+    sess.emit('* put %d c 0 var1 %s c 1 %d pat %d' % (f, K, over, 60 + rng.below(30)), kind='rl_put', rec=over, legal=False,
+              prev=below + 1)
+    sess.emit('* inq_numrecs %d' % f, kind='rl_nr_after')
+    if rng.chance(1, 2):
+        sess.emit('* sync %d' % f)
+    sess.emit('* close %d' % f)
+    sess.emit('* open %d 0' % f, kind='open', end_overflow=False)
+    sess.emit('* inq_numrecs %d' % f, kind='rl_nr_reopen')
+    sess.emit('* get %d c 0 var1 %s c 1 %d' % (f, K, below), kind='rl_get', rec=below)
+    sess.emit('* close %d' % f)
+    return sess
+
+
+def judge_reclimit(sess, res):
+    fails = []
+    st = {}
+    for ln in range(1, len(sess.lines) + 1):
+        a = sess.ann.get(ln)
+        if not a or not a['kind'].startswith('rl_'):
+            continue
+        o = res.impl.get((ln, 0))
+        if o is None or len(o) < 2:
+            continue
+        rc = int(o[1])
+        if a['kind'] in ('rl_def', 'rl_enddef'):
+            st[a['kind']] = (rc == 0)
+        if not (st.get('rl_def') and st.get('rl_enddef')):
+            continue                                # (a shrunk script without the definitions shows nothing)
+        if a['kind'] == 'rl_put':
+            if a['legal']:
+                st['legal_ok'] = (rc == 0)
+            if a['legal'] and rc != 0:
+                fails.append(dict(kind='reclimit:legal-put-rejected', line=ln, rank=0,
+                                  detail='put of record %d (count <= 2^31-1) returned %d' % (a['rec'], rc)))
+            if not a['legal'] and st.get('legal_ok'):
+                st['over_rc'] = rc; st['prev'] = a['prev']; st['over'] = a['rec']
+        elif a['kind'] == 'rl_nr' and rc == 0 and int(o[2]) != a['want']:
+            fails.append(dict(kind='reclimit:count', line=ln, rank=0, detail='record count %s, expected %d' % (o[2], a['want'])))
+        elif a['kind'] == 'rl_get' and rc != 0:
+            fails.append(dict(kind='reclimit:get', line=ln, rank=0, detail='reading record %d returned %d' % (a['rec'], rc)))
+        elif a['kind'] == 'rl_nr_after' and rc == 0 and 'over_rc' in st:
+            st['mem'] = int(o[2])
+            if st['over_rc'] != 0 and st['mem'] != st['prev']:
+                fails.append(dict(kind='cdf12-numrecs>2^31-1:failed-put-raised-count', line=ln, rank=0,
+                                  detail='CDF-1/2: a put of record %d returned %d (count would exceed 2^31-1) yet the record '
+                                         'count in memory went from %d to %d (and the data was written)'
+                                         % (st['over'], st['over_rc'], st['prev'], st['mem'])))
+        elif a['kind'] == 'rl_nr_reopen' and rc == 0 and 'mem' in st:
+            if int(o[2]) != st['mem']:
+                fails.append(dict(kind='cdf12-numrecs>2^31-1:count-lost-at-reopen', line=ln, rank=0,
+                                  detail='CDF-1/2: the record count was %d before close (sync and close returned no error) '
+                                         'and is %s after reopening the file' % (st['mem'], o[2])))
+    return fails
+
+
 def judge_size(sess, res):
     fails = []
     for ln in range(1, len(sess.lines) + 1):
